@@ -23,7 +23,7 @@ type Call struct {
 }
 
 func (c Call) A() Ev {
-	return Ev{"i": clamp(c.I), "j": clamp(c.J), "v": clamp(c.V), "vs": ints(c.Vs), "cmp": c.Cmp, "s": c.S}
+	return Ev{"i": clamp(c.I), "j": clamp(c.J), "v": clamp(c.V), "vs": ints(c.Vs), "cmp": baseCmp(c.Cmp), "s": c.S}
 }
 
 func (c Call) key() string {
